@@ -96,3 +96,187 @@ def register(reg):
     for op in ("add", "discard"):
         reg.add(OwningSetOp("section.py", "Section._ByteIntervalSet", "Section", "ByteInterval", "_section",
                             "byte_intervals", op))
+
+
+# ------------------------------------------------------------------------------------------------ block sets
+class BlockSetDiscard(OwningSetOp):
+    """ByteInterval._BlockSet.discard, verified for an arbitrary pending set (see forest.pending): it is
+    called from inside the bulk insertion loop of _BlockSet.update on the *previous* owner of a block."""
+
+    def __init__(self):
+        super().__init__("byteinterval.py", "ByteInterval._BlockSet", "ByteInterval", "ByteBlock", "_byte_interval",
+                         "blocks", "discard")
+
+    def ghost_symbolic(self, eng, st):
+        return {"P": fresh("P", SetSort), "P_owner": fresh("P_owner", Int)}
+
+    def pre(self, c, a):
+        out = super().pre(c, a)
+        P, _ = forest.pending(c)
+        out["not_pending"] = z3.Not(z3.Select(P, VRef(a.v.t)))
+        return out
+
+
+class IndexAddMultiple(Contract):
+    target = "byteinterval.py::ByteInterval._index_add_multiple"
+    props = PROPS
+    params = {"self": "ref:ByteInterval", "old_blocks": "set", "new_blocks": "set"}
+    modifies = {"_interval_events": lambda c0, a, r: r == ref(c0.get("_interval_tree", a.self.t))}
+
+    def axioms(self, eng):
+        from specs import lazy
+        return lazy.denote_axioms(eng.schema.class_id("_EventType"))
+
+    def pre(self, c, a):
+        v = fresh("v", Val)
+        L = c.get("_interval_tree", a.self.t)
+        return {"tree": z3.And(is_VRef(L), forest.kind_is(c, ref(L), "LazyIntervalTree")),
+                "new_blocks_typed": z3.ForAll([v], z3.Implies(z3.Select(a.new_blocks.t, v), z3.And(
+                    is_VRef(v), c.isinst(ref(v), "ByteBlock"), forest.block_typed(c, ref(v)))))}
+
+    @staticmethod
+    def effect(c0, c1, a, seen):
+        from specs import lazy
+        L = ref(c0.get("_interval_tree", a.self.t))
+        b = fresh("b", SetSort)
+        iv = fresh("iv", Val)
+        return z3.ForAll([b, iv], z3.Select(lazy.Denote(lazy.events(c1, L), b), iv) == z3.Or(
+            z3.Select(lazy.Denote(lazy.events(c0, L), b), iv),
+            z3.And(lazy.is_VIv(iv), z3.Select(seen, VRef(lazy.ivd(iv))), lazy.mk_spec(c0, "ByteBlock", lazy.ivd(iv)) == iv)))
+
+    def post(self, c0, c1, a, res):
+        return {"events_add_all": self.effect(c0, c1, a, a.new_blocks.t)}
+
+
+def _iam_inv(L):
+    r = fresh("r", Int)
+    tree = ref(L.c0.get("_interval_tree", L.a.self.t))
+    return {"events_add_seen": IndexAddMultiple.effect(L.c0, L.c, L.a, L.seen),
+            "other_trees_untouched": z3.ForAll([r], z3.Implies(
+                r != tree, z3.Select(L.c.arr("_interval_events"), r) == z3.Select(L.c0.arr("_interval_events"), r)))}
+
+
+def register_blocks(reg):
+    reg.add(BlockSetDiscard())
+    c = reg.add(IndexAddMultiple())
+    from pyvc.contracts import LoopSpec
+    reg.add_loop(c.target, 0, LoopSpec(_iam_inv, modifies=("_interval_events",)))
+
+
+_register_sections = register
+
+
+def register(reg):
+    _register_sections(reg)
+    register_blocks(reg)
+
+
+class BlockSetUpdate(Contract):
+    """ByteInterval._BlockSet.update(iterable): bulk insertion (one iterable; see known finding F-C16-2 for more)."""
+    target = "byteinterval.py::ByteInterval._BlockSet.update"
+    props = PROPS
+    modifies = ("SetWrapper._data", "_byte_interval", "_interval_events", "_local_uuid_cache")
+
+    def __init__(self):
+        def mk(eng, st, name):
+            from pyvc.core import sv_tuple, sv_set
+            return sv_tuple([sv_set(fresh("S", SetSort))])
+        self.params = {"self": "ref:ByteInterval._BlockSet", "iterables": mk}
+        super().__init__()
+
+    def region_invariant(self, c):
+        return forest.inv_region(c)
+
+    def focus(self, clause):
+        return wf_focus(clause)
+
+    def selects(self, self_cls, args, kwargs=None):
+        return True
+
+    @staticmethod
+    def S(a):
+        return a.iterables.x[0].t
+
+    def new_items(self, c, a):
+        d0 = z3.Select(c.arr("SetWrapper._data"), a.self.t)
+        return lambda x: z3.And(z3.Select(self.S(a), x), z3.Not(z3.Select(d0, x)))
+
+    def pre(self, c, a):
+        w = a.self.t
+        own = c.get("_node", w)
+        x = fresh("x", Val)
+        x2 = fresh("x2", Val)
+        n2 = fresh("n2", Int)
+        new = self.new_items(c, a)
+        ir = K.ir_of(c, ref(own))
+        out = dict(WF(c))
+        out["is_wrapper"] = z3.And(forest.kind_is(c, w, "ByteInterval._BlockSet"), is_VRef(own),
+                                   c.isinst(ref(own), "ByteInterval"), c.get("blocks", ref(own)) == VRef(w))
+        out["elements_are_blocks"] = z3.ForAll([x], z3.Implies(z3.Select(self.S(a), x),
+                                                               z3.And(is_VRef(x), c.isinst(ref(x), "ByteBlock"))))
+        out["uuids_distinct_where_attached"] = z3.And(
+            z3.ForAll([x, x2], z3.Implies(z3.And(new(x), new(x2), K.uuid_of(c, ref(x)) == K.uuid_of(c, ref(x2))), x == x2)),
+            z3.ForAll([x, n2], z3.Implies(z3.And(is_VRef(ir), new(x), K.is_node(c, n2), z3.Not(new(VRef(n2))),
+                                                 K.ir_of(c, n2) == ir), K.uuid_of(c, ref(x)) != K.uuid_of(c, n2))))
+        return out
+
+    @staticmethod
+    def effect(c0, c1, a, moved, w, own, final):
+        """moved(x): x has been re-parented so far; final: whether the members were added to the set already"""
+        n = fresh("n", Int)
+        w2 = fresh("w", Int)
+        x = fresh("x", Val)
+        d0 = z3.Select(c0.arr("SetWrapper._data"), w)
+        d1 = z3.Select(c1.arr("SetWrapper._data"), w)
+        return {
+            "view": z3.ForAll([x], z3.Select(d1, x) == z3.Or(z3.Select(d0, x), z3.And(final, moved(x)))),
+            "parents": z3.ForAll([n], c1.get("_byte_interval", n) == z3.If(moved(VRef(n)), own,
+                                                                           c0.get("_byte_interval", n))),
+            # whole view: every other block set loses exactly the moved blocks; nothing else changes anywhere
+            "other_collections": z3.ForAll([w2, x], z3.Implies(w2 != w, z3.Select(
+                z3.Select(c1.arr("SetWrapper._data"), w2), x) == z3.And(
+                z3.Select(z3.Select(c0.arr("SetWrapper._data"), w2), x),
+                z3.Not(z3.And(forest.kind_is(c0, w2, "ByteInterval._BlockSet"), moved(x)))))),
+        }
+
+    def post(self, c0, c1, a, res):
+        w = a.self.t
+        own = c0.get("_node", w)
+        out = dict(WF(c1))
+        out.update(self.effect(c0, c1, a, self.new_items(c0, a), w, own, z3.BoolVal(True)))
+        return out
+
+
+def _update_inv(L):
+    a = L.a
+    w = a.self.t
+    own = L.c0.get("_node", w)
+    out = dict(WF(L.c))
+    moved = lambda x: z3.Select(L.seen, x)
+    out.update(BlockSetUpdate.effect(L.c0, L.c, a, moved, w, own, z3.BoolVal(False)))
+    out["target_ir_fixed"] = K.ir_of(L.c, ref(own)) == K.ir_of(L.c0, ref(own))
+    return out
+
+
+def _update_ghost(L):
+    return {"P": L.seen, "P_owner": ref(L.c0.get("_node", L.a.self.t))}
+
+
+_register_prev = register
+
+
+def register(reg):
+    _register_prev(reg)
+    from pyvc.contracts import LoopSpec
+    c = reg.add(BlockSetUpdate())
+    reg.add_loop(c.target, 0, LoopSpec(_update_inv, modifies=BlockSetUpdate.modifies, ghost=_update_ghost,
+                                       focus=wf_focus))
+
+
+_register_prev2 = register
+
+
+def register(reg):
+    _register_prev2(reg)
+    reg.add(OwningSetOp("byteinterval.py", "ByteInterval._BlockSet", "ByteInterval", "ByteBlock", "_byte_interval",
+                        "blocks", "add"))
